@@ -19,17 +19,19 @@ class SimpleDescriptor(t.Struct):
     @classmethod
     def deserialize(cls, data):
         """Deserialize data."""
-        desc, data = super().deserialize(data)
-        data = t.List[t.uint16_t](
-            desc.input_clusters[
-                desc.input_clusters_count + desc.output_clusters_count:
-            ]
-        ).serialize()
-        desc.output_clusters = desc.input_clusters[
-            desc.input_clusters_count:
-                desc.input_clusters_count + desc.output_clusters_count
-        ]
-        desc.input_clusters = desc.input_clusters[0: desc.input_clusters_count]
+        desc = cls()
+        for field in cls.fields[:6]:
+            value, data = field.type.deserialize(data)
+            setattr(desc, field.name, value)
+        clusters = []
+        count = desc.input_clusters_count + desc.output_clusters_count
+        for _ in range(count):
+            cluster, data = t.uint16_t.deserialize(data)
+            clusters.append(cluster)
+        desc.input_clusters = t.List[t.uint16_t](
+            clusters[:desc.input_clusters_count])
+        desc.output_clusters = t.List[t.uint16_t](
+            clusters[desc.input_clusters_count:])
         return (desc, data)
 
 
